@@ -746,13 +746,13 @@ def c02_r4(ctx):
     good = len(o) == 1
     if good:
         effs = [norm(strip_pre(e)) for e in o[0].effects]
-        final = norm(strip_pre(o[0].value)) if o[0].value is not None else ""
+        final = norm(strip_pre(o[0].deref(o[0].value))) if o[0].value is not None else ""
         nm = f"{el}.name.value"
         good = f"names.add({nm})" in effs and f".union(self._get_fragments_names(self.fragments_definitions[{nm}].selection_set))" in final
     ctx.check(good, key(fi, "spread"), "a spread must contribute its own name and, recursively, the spreads of its definition", fi.loc(), okmsg="spread: name + recursive closure of its definition")
     for kind in ("field", "inline"):
         o = [x for x in Interp(fi, mk(kind), is_effect=eff).run() if any("loop body once" in t for t in x.trace)]
-        final = norm(strip_pre(o[0].value)) if len(o) == 1 and o[0].value is not None else ""
+        final = norm(strip_pre(o[0].deref(o[0].value))) if len(o) == 1 and o[0].value is not None else ""
         good = len(o) == 1 and f".union(self._get_fragments_names({el}.selection_set))" in final
         ctx.check(good, key(fi, kind), f"the selection set of a nested {kind} is not searched for spreads", fi.loc(), okmsg=f"{kind}: nested selection set searched")
     ar = repo.func(RT + "_get_all_related_fragments")
